@@ -9,6 +9,7 @@ import FrappyProofs.Lemmas.ActivateLossExplicit
 import FrappyProofs.Lemmas.ActivateExported
 import FrappyProofs.Lemmas.ActivateDeadlock
 import FrappyProofs.Lemmas.ActivateCache
+import FrappyProofs.Lemmas.ActivateCall
 import FrappyModel.Generated.C08
 /-
 C08 — property theorems (nothing but property theorems and their non-vacuity examples).
@@ -259,6 +260,15 @@ theorem request_update_within_request (cfg : Cfg) (hs : Conn → List Req) (us :
   obtain ⟨w, m, p, e, hcur⟩ := inCall_curReq hin
   exact ⟨w, m, p, e, by rw [← hcur]; exact hM.cur c⟩
 
+/-- The same on the trace (`OwnStores`, index form): every store made by the updater slot of connection `c` — every
+`emit (own c) m p e` at position `i` — lies inside a `read` / `change` request of `c` for that very parameter, and the entry
+stored is the one the request's driver call produced: the request open for `c` after the first `i` events is `read m:p` /
+`change m:p` with result `e`.  So a request announces nothing but its own parameter, once, with the value it read / wrote. -/
+theorem request_stores_what_the_request_says (cfg : Cfg) (hs : Conn → List Req) (us : Nat → List (Mod × Par × Entry))
+    (cache : Mod → Par → Entry) (hown : ∀ c, us (own c) = []) (σ : State) (h : Reach cfg (init hs us cache) σ) :
+    OwnStores σ.trace :=
+  ownStores_reach cfg hs us cache hown σ h
+
 /-- The string tests of `Dispatcher.unsubscribe` (`':' in`, `startswith(f'{eventname}:')`, exact key) remove exactly the
 subscriptions the deactivation matches — for ALL names, in particular names that are string prefixes of one another
 (`T` / `T2`, `target` / `target_max`): a scope that is not matched keeps its table entry, nobody else's entry changes. -/
@@ -503,6 +513,11 @@ holds `_lock` and its open request is the `read` -/
 example : ((run exCfg exInit7 (exActs7.take 15)).map (fun σ => (slotIdle σ (own 1), σ.disp,
       matchMon.after matchMon.init σ.trace 1))) = some (false, some 1, some (.rw false mT pTarget (.val 5 3))) := by
   decide +kernel
+
+/-- `request_stores_what_the_request_says` is about something: in that run the store by slot 3 is at position 4 and the request
+open for connection 1 after the first 4 events is the `read` with that result -/
+example : ((run exCfg exInit7 exActs7).map (fun σ => (σ.trace[4]?, matchMon.after matchMon.init (σ.trace.take 4) 1))) =
+    some (some (.emit 3 mT pTarget (.val 5 3)), some (.rw false mT pTarget (.val 5 3))) := by rfl
 
 /-- the slot cannot run ahead of the request (before the call it is blocked), and the request cannot return before the
 announcement is done -/
